@@ -50,7 +50,7 @@ Proof. unfold all_reaped. induction l; simpl; auto. Qed.
 Lemma prim_sound ps o w a : approx w a -> approx (prim ps o w) (aprim o a).
 Proof.
   intros (Ha & Hn & Hf & Hs & Hr). destruct w as [e st]. unfold approx in *. simpl in *.
-  destruct o as [ | [|] | [|] | | | | | | | | ops | | | ].
+  destruct o as [ | [|] | [|] | | | | | | | | | ops | | | ].
   - (* ShutdownWorkers *) simpl. repeat split; auto.
     + intros _. apply no_alive_after_shutdown.
     + intros H. rewrite (Hn H). reflexivity.
@@ -64,6 +64,7 @@ Proof.
   - (* JoinAllProcesses *) simpl. repeat split; auto.
     intros H. apply orb_false_iff in H. destruct H as [H1 H2]. rewrite (Hs H1). simpl.
     apply andb_false_iff in H2. destruct H2 as [H2|H2]; [exact (Ha H2)| rewrite (Hn H2); reflexivity].
+  - simpl. repeat split; assumption.
   - simpl. repeat split; assumption.
   - simpl. repeat split; assumption.
   - simpl. repeat split; assumption.
@@ -110,7 +111,7 @@ Proof. vm_compute. reflexivity. Qed.
 (* exec touches neither user, refs, mgr, shut-ness of the user nor depends on the stale list for the executor part *)
 Lemma prim_user ps o w : user (cur (prim ps o w)) = user (cur w) /\ mgr (cur (prim ps o w)) = mgr (cur w) /\ refs (cur (prim ps o w)) = refs (cur w).
 Proof.
-  destruct w as [e st]. destruct o as [ | [|] | [|] | | | | | | | | ops | | | ]; unfold prim;
+  destruct w as [e st]. destruct o as [ | [|] | [|] | | | | | | | | | ops | | | ]; unfold prim;
     destruct feeder_not_joined_by_creator; simpl; auto.
 Qed.
 Lemma prims_user ps ops : forall w, user (cur (fold_left (fun w o => prim ps o w) ops w)) = user (cur w)
@@ -130,7 +131,7 @@ Proof.
 Qed.
 
 Lemma prim_cur_indep ps o e s1 s2 : cur (prim ps o (mkw e s1)) = cur (prim ps o (mkw e s2)).
-Proof. destruct o as [ | [|] | [|] | | | | | | | | ops | | | ]; unfold prim; destruct feeder_not_joined_by_creator; simpl; auto. Qed.
+Proof. destruct o as [ | [|] | [|] | | | | | | | | | ops | | | ]; unfold prim; destruct feeder_not_joined_by_creator; simpl; auto. Qed.
 Lemma prims_cur_indep ps ops : forall w1 w2, cur w1 = cur w2 ->
   cur (fold_left (fun w o => prim ps o w) ops w1) = cur (fold_left (fun w o => prim ps o w) ops w2).
 Proof.
@@ -147,7 +148,7 @@ Qed.
 (* with an empty table nothing is added to the stale list *)
 Lemma prim_empty ps o e st : table e = [] -> table (cur (prim ps o (mkw e st))) = [] /\ stale (prim ps o (mkw e st)) = st.
 Proof.
-  intros H. destruct o as [ | [|] | [|] | | | | | | | | ops | | | ]; unfold prim; destruct feeder_not_joined_by_creator;
+  intros H. destruct o as [ | [|] | [|] | | | | | | | | | ops | | | ]; unfold prim; destruct feeder_not_joined_by_creator;
     simpl; rewrite ?H; simpl; auto; split; try reflexivity; apply app_nil_r.
 Qed.
 Lemma prims_empty ps ops : forall e st, table e = [] ->
